@@ -1403,6 +1403,12 @@ class PolyhedralTermList(TermList):  # noqa: WPS338
             new_context = context.copy()
             new_context.terms.remove(useful_term)
             new_term = useful_term.isolate_variable(var_to_elim)
+            # useful_term bounds var_to_elim by the isolated expression from above if its coefficient is
+            # positive and from below otherwise; a lower bound has to be refined downwards, i.e., its
+            # negation upwards
+            lower_bound = useful_term.get_coefficient(var_to_elim) < 0
+            if lower_bound:
+                new_term = new_term.multiply(-1)
             new_no_vars = no_vars.copy()
             new_no_vars.append(var_to_elim)
             try:  # noqa: WPS229
@@ -1412,6 +1418,8 @@ class PolyhedralTermList(TermList):  # noqa: WPS338
                 total_calls += recursive_count
                 if return_term is None:
                     continue
+                if lower_bound:
+                    return_term = return_term.multiply(-1)
                 return term.substitute_variable(var_to_elim, return_term), total_calls
             except ValueError:
                 total_calls += 1
